@@ -44,8 +44,8 @@ S={
 'C20-15':('exhausted flag set by Allocate_inRange when its scan reaches the cursor','Allocate_inRange refused while free identifiers exist elsewhere, then Allocate'),
 'C20-16':('cursor wrap decided with id+1 > maxValue','allocator whose upper bound is MaxInt64'),
 }
-FIRST=[]
-H={}
+FIRST=['C01-15', 'C02-15', 'C03-15', 'C03-16', 'C04-15', 'C04-16', 'C05-15', 'C05-16', 'C06-15', 'C07-15', 'C08-15', 'C08-16', 'C09-15', 'C10-15', 'C10-16', 'C12-15', 'C13-15', 'C14-15', 'C15-15', 'C16-15', 'C19-16', 'C20-15']
+H={'C01-16': 'missed at first (payload containers held nested messages or random octets). Corpus kind multi-payload: container type 15 with consistent entries, an optional IE that crosses its entry but stays inside the container, IEs and entries that overrun, wrong counts, zero lengths', 'C02-16': 'missed at first (decode targets were fresh). Half of the PlainNasDecode targets carry a SecurityHeader recorded by the caller; it must be what it was after the decode', 'C06-16': 'missed at first. The mixed series cipher an EMPTY message in place at the start of a 96-octet receive area now and then (rx[:0]); the area must stay untouched through the later calls; direct NEAx calls whose results are kept were added to the series', 'C07-16': 'missed at first (a series used one COUNT and DIRECTION). A third of the calls of a mixed series use the twin tuple (COUNT with bit 31 flipped, the other DIRECTION), which agrees with the original in the IV words built as COUNT xor DIRECTION<<31', 'C09-16': 'missed at first (the concurrent accessor workload used two fixed element types). It now calls SetLen, fills and reads back three element types picked from all Buffer-backed ones; reported as digest mismatch and as data race', 'C11-15': 'the first run did not finish within an hour: every shard blocked on the leaked lock and the confirmation replays waited ten minutes each, one after the other. A replay that sits for a minute without using the processor is now judged on its goroutine dump (blocked-forever:<library frame>), and the confirmations run side by side', 'C11-16': "missed at first (private counters were fresh zero values). In half of the concurrent-private cases the workers' counters are value copies of one counter that was already set, incremented and read", 'C12-16': 'missed at first (texts were compared when returned). The identity series keeps every text the library returned and re-reads all of them after each step', 'C13-16': 'missed at first (every element was filled once). In half of the nssai-decode cases the element held a longer well-formed list before', 'C14-16': "missed at first (entries of a list were independent). Lists in which an entry repeats the SST and SD of an earlier entry in another variant, in C13's lists and among C14's structured inputs", 'C15-16': 'missed at first (only well-formed lists were marshalled). A quarter of the rule cases are preceded by a marshal the library has to refuse (21-bit flow label, three-octet address, 13-bit VLAN id)', 'C16-16': 'missed at first. Kind bad-input (which makes UnMarshal fail on truncated contents) added to the cold units and the race side run of C16', 'C17-15': 'missed at first (instants had whole seconds). The hourly instants carry nanoseconds, half of them above 0.5 s', 'C17-16': 'missed at first (all fixed zones were called "fixed"). Fixed zones are labelled UTC, GMT, "", Local, CST, Z ... in rotation', 'C18-15': 'missed at first. The input handed to a decoder is overwritten as soon as the decoder has returned (thenScribble) in C16 and C18', 'C18-16': 'missed at first (a fresh part value per append). In template mode one part variable is refilled for every part of an instruction', 'C19-15': 'missed at first (MAC messages up to 1600 octets). One MAC item in twelve uses a message of 4096..9000 octets', 'C20-16': 'missed at first. Ranges that end at MaxInt64 (four identifiers, 64, and almost all positive ones)'}
 if __name__=='__main__':
     for k,(what,needs) in S.items():
         d='/verif/seeded/'+k
